@@ -163,6 +163,13 @@ func (fx *FuncCtx) assertTo(st *State, iv IfaceV, to types.Type) (Term, Val) {
 	u := app(s, "unbox_"+tname, iv.T)
 	if _, isPtr := to.Underlying().(*types.Pointer); isPtr {
 		st.assume(Implies(c, Gt(u, IntLit(0))))
+		// a pointer boxed in an interface PARAMETER refers to an object that existed at entry
+		for _, pv := range fx.params {
+			if piv, ok := pv.(IfaceV); ok && piv.T.S == iv.T.S {
+				st.assume(Implies(c, Lt(u, Term{"alloc0", SInt})))
+				break
+			}
+		}
 	}
 	return c, fx.wrapElem(u, to)
 }
